@@ -412,8 +412,15 @@ func opRound(r *ledger.Runner, st sim.Step) {
 	// ---- faults that are extra messages ---------------------------------------------------------
 	switch fault {
 	case fDuplicate:
+		// a second message of the kind that belongs to the current phase (verbatim, or a different mpk),
+		// else the miner's last DKG message whatever it was
+		fnNow := map[minersc.Phase]string{minersc.Contribute: "contributeMpk", minersc.Publish: "shareSignsOrShares", minersc.Wait: "wait"}[ph]
 		if l, ok := a.last[fmID]; ok {
-			a.submit(fmID, l[0], l[1], fee)
+			raw := l[1]
+			if l[0] == fnNow && fnNow == "contributeMpk" && variant%2 == 1 && v.dmn.T > 0 {
+				raw = mpkJSON(fmID, a.mpkStrings(bls.MakeDKG(v.dmn.T, max(v.dmn.T, v.dmn.N), fmID)))
+			}
+			a.submit(fmID, l[0], raw, fee)
 			fired = true
 		}
 	case fOutOfPhase:
